@@ -468,7 +468,12 @@ func interfGen(g *Gen) {
 		general := interfGeneralBattery()
 		p := general[g.Rng.Intn(len(general))]
 		if g.Rng.Intn(2) == 0 {
-			p = progs[g.Rng.Intn(len(progs))]
+			// programs that list the process-wide type registry are used with the structured
+			// histories only (interfRegistryBattery: there the first culprit is the same on every
+			// run, which the known findings are keyed by)
+			if q := progs[g.Rng.Intn(len(progs))]; !strings.Contains(q, "typelist") {
+				p = q
+			}
 		}
 		emit("random-mix", p, hist)
 	}
